@@ -117,6 +117,7 @@ type Exec struct {
 	unrolled    int
 	symArrCtr   int
 	symStack    map[string]int
+	witnessTuples [][]Expr // hinted witnesses for the existential clause being proved
 	sliceCells  map[string]*Cell // backing arrays of slices held by region objects, by owner identity
 	recDepth    int
 	entryMark   int          // cells with id <= entryMark existed at entry of the function under contract
